@@ -256,6 +256,9 @@ class Fn:
 # dumped as a tree of statements whose leaves are the normalised SOURCE TEXT of each simple statement / condition.
 FLOW_FUNCS = ['__config_read', 'config_read', 'config_read_string', 'config_read_file', 'config_write_file',
               'config_clear', 'config_destroy']
+# the include stack (lib/scanctx.c)
+FLOW_FUNCS_SCANCTX = ['libconfig_scanctx_push_include', 'libconfig_scanctx_next_include_file', 'libconfig_scanctx_pop_include',
+                      'libconfig_scanctx_cleanup', 'libconfig_scanctx_init', 'libconfig_scanctx_current_filename']
 
 
 def _off(loc, end=False):
@@ -348,20 +351,46 @@ class FlowFn:
         if k == 'WhileStmt':
             body = self.flat(n['inner'][-1])
             if body is None:
-                self.bad.append('loop-with-branches'); return '(.other "loop-with-branches")'
+                return '(.loopB %s %s)' % (_lean_str(self.text(n['inner'][0])), self.stmt(n['inner'][-1]))
             return '(.loop %s [%s])' % (_lean_str(self.text(n['inner'][0])), ', '.join(_lean_str(t) for t in body))
-        if k in ('ForStmt', 'DoStmt', 'SwitchStmt', 'GotoStmt', 'LabelStmt', 'BreakStmt', 'ContinueStmt'):
+        if k == 'ForStmt':
+            # for(init; cond; inc) body: the header is one text (empty parts stay empty)
+            parts = n['inner']
+            head = ';'.join(self.text(c) if c and c.get('kind') else '' for c in (parts[0], parts[2], parts[3]))
+            body = self.flat(parts[-1])
+            if body is None:
+                return '(.loopB %s %s)' % (_lean_str('for(' + head + ')'), self.stmt(parts[-1]))
+            return '(.loop %s [%s])' % (_lean_str('for(' + head + ')'), ', '.join(_lean_str(t) for t in body))
+        if k in ('DoStmt', 'SwitchStmt', 'GotoStmt', 'LabelStmt', 'BreakStmt', 'ContinueStmt'):
             self.bad.append(k); return '(.other %s)' % _lean_str(k)
         return '(.stmt %s)' % _lean_str(self.text(n).rstrip(';'))
 
 
+def _decls_of(repo, cfile):
+    r = subprocess.run(['clang-14', '-fsyntax-only', '-w', '-Xclang', '-ast-dump=json',
+                        '-DHAVE_USELOCALE', '-DHAVE_NEWLOCALE', '-DHAVE_FREELOCALE', '-DLIBCONFIG_STATIC',
+                        '-I' + os.path.join(repo, 'lib'), os.path.join(repo, 'lib', cfile)], capture_output=True, text=True)
+    out = {}
+    if r.returncode == 0:
+        try:
+            for d in json.loads(r.stdout).get('inner', []):
+                if d.get('kind') == 'FunctionDecl' and any(c.get('kind') == 'CompoundStmt' for c in d.get('inner', [])):
+                    out[d['name']] = d
+        except ValueError:
+            pass
+    return out
+
+
 def generate_flow(repo, outdir, write_if_changed, decls_all):
     info = {'functions': {}, 'problems': {}}
-    src = open(os.path.join(repo, 'lib', 'libconfig.c'), 'rb').read()
-    L = ['/- GENERATED by tools/ctranslate.py from lib/libconfig.c (clang AST + source ranges) - do not edit. -/',
+    L = ['/- GENERATED by tools/ctranslate.py from lib/libconfig.c and lib/scanctx.c (clang AST + source ranges) - do not edit. -/',
          'import LibconfigModel.CFlow', 'namespace Libconfig.Generated.CFlowSource', 'open Libconfig.CFlow', '']
-    for f in FLOW_FUNCS:
-        d = decls_all.get(f)
+    scan_decls = _decls_of(repo, 'scanctx.c')
+    srcs = {'libconfig.c': open(os.path.join(repo, 'lib', 'libconfig.c'), 'rb').read(),
+            'scanctx.c': open(os.path.join(repo, 'lib', 'scanctx.c'), 'rb').read()}
+    for f, cfile, table in [(f, 'libconfig.c', decls_all) for f in FLOW_FUNCS] + [(f, 'scanctx.c', scan_decls) for f in FLOW_FUNCS_SCANCTX]:
+        src = srcs[cfile]
+        d = table.get(f)
         name = 'flow_' + (f[2:] + '_impl' if f.startswith('__') else f)
         if d is None:
             L.append('def %s : Flow := .other "missing"' % name)
